@@ -260,7 +260,10 @@ PROPS["C10"] = dict(
          "structs from objects and arrays, every enum spelling, bytes from strings with lone surrogates, f32, nested options), the "
          "crafted typed corpus of C16's op tt, 61 number spellings against every leaf target and as quoted keys of every integer "
          "width, and 2000 (thorough 20000) random schemas with a matching value's compact and whitespace-spaced text; every "
-         "prefix is run through the universal seed (str, slice or reader) and through the typed model Model.Typed.deTypedTop.",
+         "prefix is run through the universal seed (str, slice or reader) and through the typed model Model.Typed.deTypedTop. "
+         "Streams (op spfx): the whole next()/byte_offset() history of StreamDeserializer<Value> / <IgnoredAny> over EVERY prefix of 19 "
+         "fixed streams, every token sequence of length <= 2 (thorough 3) that starts with a value, and 300 (thorough 3000) "
+         "concatenations of 1-4 generated values with every separator choice; source chosen per case among str, slice, reader.",
     trusted_base=MACHINE_TB,
     assumptions=["raw values as typed targets are covered by correspondence only (C19); the typed theorems are about the universal "
                  "seed's schema universe (harness/src/schema.rs), whose visitors are transcribed in SJ/Model/FromValue.lean",
@@ -269,7 +272,8 @@ PROPS["C10"] = dict(
              "c10_typed_prefix_partial: for schemas containing an f64 / f32 / Value target the typed theorem carries the same inherent "
              "NumberOutOfRange exception (a prefix can be a complete out-of-range float literal); c10_typed_prefix has no exception "
              "for every other schema (128-bit integers and all key kinds included)",
-             "stream iteration: not modelled"],
+             "c10_stream_prefix_partial: streams of Value items carry the same inherent NumberOutOfRange exception (open known finding "
+             "C10-out-of-range-number-prefix-stream); c10_stream_prefix_ignored has none; streams of typed item types are not modelled"],
     technique="Lean 4 theorems over a byte-step machine model (fold decomposition + exhaustive analysis of the end-of-input table "
               "against the classify arms regenerated from error.rs) + differential prefix sweep against the crate",
     level_text="Machine-checked: for the Value and IgnoredAny targets, in every feature configuration and for every input source, "
@@ -281,13 +285,18 @@ PROPS["C10"] = dict(
                "deserializer + end() is never accepted with a different reading: it fails with an Eof-classified error (visitor "
                "errors and fuel exhaustion excluded by proof: typed_no_panic, typed_fuel_suffices); c10_typed_prefix_partial covers "
                "all schemas with the NumberOutOfRange exception; c10_typed_core is the relational core. "
+               "Streams: c10_stream_prefix_partial / c10_stream_prefix_ignored - as long as the stream over the whole input yields values, the "
+               "stream over any prefix yields the same values with the same byte_offset()s up to the one call that runs into the cut, and "
+               "that call yields None at the cut, a value ending exactly at the cut (a number literal cut short is a shorter number: the "
+               "end of input delimits a bare scalar), or an error positioned at the end of the prefix that is Eof-classified (Value items: "
+               "or the inherent NumberOutOfRange) - never another Syntax error, never a value or offset the full input does not produce. "
                "classify and the error codes are regenerated from src/error.rs each run; the machine and the typed model are compared "
                "with the crate on every prefix of generated and exhaustive short documents, and the property's own predicate is "
                "evaluated on the crate's outputs.",
     level_note="Trusted: Lean kernel + propext/Classical.choice/Quot.sound; extract.py; harness/driver; the hand-written machine model "
                "(validated by correspondence, 0 disagreements) and the hand-written typed model SJ/Model/Typed.lean (transcription of "
-               "impl Deserializer for &mut Deserializer<R>, validated by ops tt / tt3 / pfxs / rfaults, 0 disagreements). Raw values and "
-               "streams are not inside the typed model.",
+               "impl Deserializer for &mut Deserializer<R>, validated by ops tt / tt3 / pfxs / rfaults, 0 disagreements); the stream model "
+               "Model.Stream (ops stream, spfx). Raw values are not inside the typed model (C19 has its own).",
 )
 
 PARSE_RULE = ("every token sequence of length <= 3 (thorough: 4, 1/4 sampled by seed) over the 43-token structural alphabet "
@@ -299,27 +308,43 @@ PARSE_RULE = ("every token sequence of length <= 3 (thorough: 4, 1/4 sampled by 
               "distinct = distinct (op, config, input) lines.")
 
 PROPS["C09"] = dict(
-    lean_targets=["SJ.Props.C09", "SJ.Audit.C09"],
-    configs=dict(quick=["d", "ap"], thorough=["d", "ap", "fr", "po"]),
+    lean_targets=["SJ.Props.C09", "SJ.Props.C09Stream", "SJ.Audit.C09"],
+    configs=dict(quick=["d", "ap", "rv"], thorough=["d", "ap", "fr", "po", "rv"]),
     gen_keys=["error.", "de."],
     rule=PARSE_RULE + " C09 adds multi-line documents (spaces turned into newlines) with 4 mutations each; the three sources' "
          "outcomes (message, category, line, column, value) are compared with each other and with the model. Typed targets (op tt3): "
-         "the crafted typed corpus and random (schema, text) pairs with byte-level mutations, each from str, slice and a chunked reader.",
+         "the crafted typed corpus and random (schema, text) pairs with byte-level mutations, each from str, slice and a chunked reader. "
+         "Streams (op stream3): whole next()/byte_offset() histories of StreamDeserializer<Value> and <IgnoredAny> from str, slice and a "
+         "reader with a random chunking, continuing 3 calls past the end, on 47 fixed streams (multi-line ones included), every token "
+         "sequence of length <= 2 (thorough 3), concatenations of 1-4 generated values with every separator choice, each truncated and "
+         "twice corrupted. Raw values (raw_value configuration; ops raw3, rawnest): Box<RawValue> from the three sources on a fixed "
+         "corpus, every token sequence of length <= 2 (thorough 3), multi-line generated documents with 3 mutations each; "
+         "Vec<Box<RawValue>> / map-of-RawValue captures of generated arrays and objects with 2 mutations each.",
     trusted_base=MACHINE_TB,
     assumptions=["io::Bytes yields the reader's bytes one at a time in order, whatever the chunking (std)",
-                 "raw values and stream iteration are not inside the model; typed targets are modelled (Model.Typed) and run by "
-                 "op tt3 (str, slice, reader outcomes of one text against deTypedTop with src = slice / reader)"],
+                 "typed targets are modelled (Model.Typed) and run by op tt3 (str, slice, reader outcomes of one text against "
+                 "deTypedTop with src = slice / reader); streams by Model.Stream (op stream3), raw captures by Model.Raw / "
+                 "Model.RawNested (ops raw3, rawnest)"],
     partial=["typed targets: no theorem relates the slice and reader runs of the typed model; the clause (same class, positions at most "
              "one byte apart between slice and reader — the reader's error() counts the peeked byte — and str = slice exactly) is "
              "evaluated by op tt3 on the crate's outcomes and the model reproduces both positions (0 disagreements)",
-             "raw, stream byte_offset: correspondence only"],
+             "c09_raw_nested_sources states the agreement of SUCCESSFUL nested captures (Vec<Box<RawValue>>); for failing inputs the "
+             "error of the enclosing Vec / map is a typed-target error (positions of visitor errors may differ by the reader's peeked "
+             "byte): evaluated per case by op rawnest; map-of-RawValue captures by correspondence only",
+             "stream items of typed item types: not modelled (Value and IgnoredAny items are)"],
     technique="Lean 4 theorem: the byte-step machine's outcome is independent of the slice/reader source (step-wise equality + all "
               "error sites include the offending byte) + three-source differential run against the crate",
     level_text="Machine-checked: c09_slice_reader — for every configuration, both untyped targets and every byte string the slice and "
                "reader sources give the same value or the same error code at the same position (hence message, category, line, "
                "column); c09_str_slice_value / c09_str_slice / c09_all_sources — on every valid UTF-8 input (every &str) the &str source gives "
                "the identical outcome too (the UTF-8 check it skips never fires: what is decoded so far followed by the unread input "
-               "stays valid UTF-8); c09_str_slice_ignored for skipped content without that hypothesis. The crate is run on every generated input from all three "
+               "stays valid UTF-8); c09_str_slice_ignored for skipped content without that hypothesis. c09_stream_offsets (StreamDeserializer: "
+               "for every input, item type and number of calls, the slice and reader sources yield the same sequence of items - values, or "
+               "errors with the same code at the same index - and the same byte_offset() after every call; on valid UTF-8 input so does "
+               "the &str source: the unread input of a stream stays valid UTF-8 after each value), c09_raw_sources (from_*::<Box<RawValue>>: "
+               "identical captured span or identical error code and index from slice and reader; from &str too on valid UTF-8 input - a "
+               "captured value begins and ends with an ASCII byte, so the byte sources' from_utf8 check cannot fail there), "
+               "c09_raw_nested_sources (successful Vec<Box<RawValue>> captures agree across the three sources). The crate is run on every generated input from all three "
                "sources with random chunkings and the outcomes are compared with each other (spec) and with the model.",
     level_note="Trusted: Lean kernel + 3 standard axioms; extract.py; harness/driver; hand-written machine model validated by "
                "correspondence. Two genuine position defects found by this check were repaired in /repo (fix: commits 28defde, 9343bad).",
@@ -359,12 +384,16 @@ PROPS["C14"] = dict(
          "mixes (accepted iff at most 127 containers are open), unbounded_depth runs with the limit disabled at depth 127..1000 "
          "directly and through a stream, 20k (thorough 200k) random byte strings biased to JSON punctuation, and ten pathological inputs "
          "(10^6-deep arrays open/balanced, 2*10^5-deep objects, 4 MB string, 10^6 escapes, 10^6-digit integer/fraction/exponents, "
-         "10^6-element array) each through Value (slice, reader) and IgnoredAny under catch_unwind.",
+         "10^6-element array) each through Value (slice, reader) and IgnoredAny under catch_unwind. Streams (op sdepth): "
+         "StreamDeserializer over two items nested d1 / d2 deep for d1, d2 in {0,1,2,126,127,128,129,200} (quick: at least one of them "
+         ">= 126), bracket mixes arrays / objects / alternating, separators none / space / newline / mixed, items Value and "
+         "IgnoredAny, sources str / slice / reader, 4 calls; with unbounded_depth also with the limit disabled.",
     trusted_base=MACHINE_TB,
     assumptions=["memory safety of compiled unsafe blocks, real stack consumption and allocator behaviour are runtime properties outside any model (partial by nature)"],
     partial=["the shape invariant making every remaining model fallback unreachable is proved inside the soundness development "
              "(Proofs/Sound: Inv) but not restated per fallback",
-             "typed targets / enum wrappers / stream depth restoration: not yet modelled"],
+             "typed targets / enum wrappers: by correspondence (op tdepth); c14_stream_depth_restored is about streams of Value / "
+             "IgnoredAny items (the explicit counter of Model.StreamDepth follows deserialize_any's two check_recursion! sites)"],
     technique="Lean 4 invariants over the byte-step machine (stack height < 128 for every reachable state, re-dispatch happens at most "
               "once, UTF-8 of every returned string, no fuel exhaustion, termination by structural recursion) + pathological-input "
               "runs of the crate under catch_unwind (thorough: also under AddressSanitizer)",
@@ -374,7 +403,12 @@ PROPS["C14"] = dict(
                "returned value is valid UTF-8 - for the &str source, which uses str::from_utf8_unchecked, given that its input is "
                "valid UTF-8) and c14_utf8_at_closing_quote (the same at every closing quote reached, also in documents rejected "
                "later), c14_no_fuel / c14_no_fuel_machine (the fuelled f64_from_parts loop of the number conversion never runs out of "
-               "fuel on anything the scanner produces; the float_roundtrip conversion has no fuel); termination by construction. The crate "
+               "fuel on anything the scanner produces; the float_roundtrip conversion has no fuel); c14_stream_depth_restored / "
+               "c14_stream_item_budget (Model.StreamDepth threads the Deserializer's remaining_depth counter through a whole stream, "
+               "decrementing / incrementing it where check_recursion! does and testing the limit on the counter: it yields exactly the "
+               "items and offsets of the stream model, the counter reads 128 after every value - and after every failed item except "
+               "RecursionLimitExceeded itself, which leaves 127 once the stream is already fused - so every item that is parsed has the "
+               "full budget of 127 levels); termination by construction. The crate "
                "is run on random bytes, mutated documents, depth profiles and megabyte/10^6-deep inputs with catch_unwind.",
     level_note="Trusted: Lean kernel + 3 standard axioms; extract.py (remaining_depth = 128 is regenerated); harness/driver; machine "
                "model. Partial by nature: actual memory safety and stack usage of compiled code cannot be exhibited by a model.",
